@@ -28,7 +28,8 @@ struct C04 : vr::Driver {
     bool th = tier == "thorough";
     plugins = th ? std::vector<int>{0, 1, 2, 3, 4} : std::vector<int>{0, 1, 2};
     // dims: shape(3) pop(3) plugin pattern(4) recursive(2) kernelkill(2) pref(3) delay(3: ruleset 2 / plugin 3 / plugin 0) always_continue(2)
-    mx.dims = {3, 3, plugins.size(), 4, 2, 2, 3, 3, 2};
+    //       prekill hook(3: none / finishes at once / pending for one tick, i.e. the kill is deferred and resumed)
+    mx.dims = {3, 3, plugins.size(), 4, 2, 2, 3, 3, 2, 3};
     nKill = mx.total();
   }
   size_t count() override { return nKill + 8; }  // + systemd_restart scenarios
@@ -78,6 +79,12 @@ struct C04 : vr::Driver {
     if (d[7] == 2) s.args["post_action_delay"] = "0";
     if (d[8]) s.args["always_continue"] = "true";
     if (dry) s.args["dry"] = "true";
+    if (d[9]) {
+      s.hooksJson = "{\"name\":\"verif_hook\",\"args\":{\"id\":\"h\",\"cgroup\":\"/\"}}";
+      s.hookTimeout = 30;
+      bool pending = d[9] == 2;
+      s.hookDecide = [pending](const std::string&, long, int polls) { return !pending || polls >= 1; };
+    }
     s.ticks = 5;
     s.rulesetDelay = 2;
     return s;
@@ -149,12 +156,15 @@ struct C04 : vr::Driver {
       // there may differ legitimately: the wet world has lost its victim.
       auto head = [](const ks::Outcome& o) {
         std::string s;
-        int n = 0;
+        bool done = false;  // the kill action has returned something other than ASYNC_PAUSED (deferred by a prekill hook)
         for (auto& c : o.calls)
           if (c.id == "K" && c.method == "run") {
-            if (n == 0) s += std::to_string(c.tick) + "CSA"[c.ret] + std::string(" ");
-            if (n == 1) s += "next@" + std::to_string(c.tick);
-            if (++n == 2) break;
+            if (done) {
+              s += "next@" + std::to_string(c.tick);
+              break;
+            }
+            s += std::to_string(c.tick) + "CSA"[c.ret] + std::string(" ");
+            done = c.ret != 2;
           }
         return s;
       };
@@ -176,7 +186,7 @@ struct C04 : vr::Driver {
   }
   std::string rule() override {
     return "every scenario of (3 shapes x 3 populations x plugin x 4 cgroup arguments x recursive x kernelkill x preference marks x delay "
-           "variant x always_continue) plus 8 systemd_restart scenarios is executed twice from identical worlds, dry=false and dry=true, "
+           "variant x always_continue x prekill hook {none, finishes at once, pending one tick so that the kill is deferred and resumed}) plus 8 systemd_restart scenarios is executed twice from identical worlds, dry=false and dry=true, "
            "5 ticks each; dry oracle: effect log free of kill/setxattr/control-file write/pidfd_open/process_mrelease/sd_bus, oomd.kills "
            "and oomd.restarts unchanged, '(dry)' kmsg record naming the wet run's first attacked cgroup on the same tick, same PluginRet "
            "and same ticks of subsequent chain starts as the wet run when its first attempt succeeded; non-trivial = distinct dry "
